@@ -646,3 +646,231 @@ Proof.
       rewrite Hc, Hc' in H. now apply flip_neq in H.
   - intros E. discriminate.
 Qed.
+
+(** ** castling *)
+Definition mem (x : N) (l : list N) : bool := existsb (N.eqb x) l.
+
+Lemma mem_In x l : mem x l = true <-> In x l.
+Proof. apply existsb_eqb_In. Qed.
+
+Lemma forallb_free_false occ l u : In u l -> N.testbit occ u = true -> forallb (free occ) l = false.
+Proof.
+  intros Hin Hb. destruct (forallb (free occ) l) eqn:E; [|reflexivity].
+  rewrite forallb_forall in E. specialize (E u Hin). unfold free in E. rewrite Hb in E. discriminate.
+Qed.
+
+Lemma forallb_ext_in {A} (f g : A -> bool) l : (forall x, In x l -> f x = g x) -> forallb f l = forallb g l.
+Proof.
+  induction l as [|x l IH]; intros H; cbn [forallb]; [reflexivity|].
+  rewrite (H x (or_introl eq_refl)), IH; [reflexivity|]. intros y Hy. apply H. now right.
+Qed.
+
+(* where the squares touched by castling can lie relative to the rays from / to the
+   opponent's king K (K anywhere except on the squares known to hold something else):
+   - the rook's corner rf is never strictly inside a ray;
+   - if the king's destination kt is inside a ray from K then so is the rook's destination rt;
+   - if the king's origin kf is inside the ray from K to rf then so is rt;
+   - neither rf nor kt is inside a ray from rt to K. *)
+Definition castle_geom_ok (kf kt rf rt : N) (empties : list N) : bool :=
+  forallb (fun K =>
+    mem K (kf :: rf :: empties) ||
+    forallb (fun d =>
+      (negb (ray_in 0 d rt K) || negb (mem rf (btw d rt K)) && negb (mem kt (btw d rt K))) &&
+      (negb (ray_in 0 d K rf) || negb (mem kf (btw d K rf)) || mem rt (btw d K rf)) &&
+      forallb (fun a => negb (ray_in 0 d K a) ||
+                        negb (mem rf (btw d K a)) && (negb (mem kt (btw d K a)) || mem rt (btw d K a))) squares64)
+    all_dirs) squares64.
+
+Lemma castle_geom_all :
+  forallb (fun c => forallb (fun '(kf, kt, rf, _, empties) =>
+     castle_geom_ok kf kt rf (snd (rook_castle_squares kt)) empties) (castles c)) [0; 1] = true.
+Proof. vm_compute. reflexivity. Qed.
+
+Section Castle.
+  Variables (b b' : list N) (us K kf kt rf rt : N) (empties : list N).
+  Hypothesis Hus : us < 2.
+  Hypothesis HK : K < 64.
+  Hypothesis Hl : length b = 64%nat.
+  Hypothesis Hno : forall a, a < 64 -> att_from b K us a = false.
+  Hypothesis Hlt : kf < 64 /\ kt < 64 /\ rf < 64 /\ rt < 64.
+  Hypothesis Hdist : kf <> kt /\ kf <> rf /\ kf <> rt /\ kt <> rf /\ kt <> rt /\ rf <> rt.
+  Hypothesis Hkf : at_ b kf = mk_piece us KING.
+  Hypothesis Hrf : at_ b rf = mk_piece us ROOK.
+  Hypothesis Hkt : at_ b kt = 0.
+  Hypothesis Hrt : at_ b rt = 0.
+  Hypothesis Hgeom : castle_geom_ok kf kt rf rt empties = true.
+  Hypothesis HKok : mem K (kf :: rf :: empties) = false.
+  Hypothesis Hb' : forall a, at_ b' a = if a =? rt then mk_piece us ROOK else if a =? rf then 0
+                                        else if a =? kt then mk_piece us KING else if a =? kf then 0 else at_ b a.
+  Hypothesis Hadj : existsb (N.eqb K) (king_targets kt) = false.
+
+  Let o := occ_of b.
+  Let o1 := N.lor (N.ldiff o (bit kf)) (bit rt).
+  Let o' := occ_of b'.
+
+  Lemma geom_at d :
+    (ray_in 0 d rt K = true -> mem rf (btw d rt K) = false /\ mem kt (btw d rt K) = false) /\
+    (ray_in 0 d K rf = true -> mem kf (btw d K rf) = true -> mem rt (btw d K rf) = true) /\
+    forall a, a < 64 -> ray_in 0 d K a = true ->
+      mem rf (btw d K a) = false /\ (mem kt (btw d K a) = true -> mem rt (btw d K a) = true).
+  Proof.
+    pose proof (forall_squares _ Hgeom K HK) as H. cbv beta in H. rewrite HKok in H. cbn [orb] in H.
+    rewrite forallb_forall in H. specialize (H d (in_all_dirs d)).
+    apply andb_true_iff in H as [H H4]. apply andb_true_iff in H as [H1 H3].
+    split; [|split].
+    - intros E. rewrite E in H1. cbn [negb orb] in H1. apply andb_true_iff in H1 as [H1 H2].
+      apply negb_true_iff in H1, H2. now split.
+    - intros E1 E2. rewrite E1, E2 in H3. exact H3.
+    - intros a Ha E. pose proof (forall_squares _ H4 a Ha) as Ha'. cbv beta in Ha'. rewrite E in Ha'.
+      cbn [negb orb] in Ha'. apply andb_true_iff in Ha' as [Ha1 Ha2]. apply negb_true_iff in Ha1.
+      split; [exact Ha1|]. intros E2. rewrite E2 in Ha2. exact Ha2.
+  Qed.
+
+  Lemma o1_bit u : N.testbit o1 u = (N.testbit o u && negb (u =? kf)) || (u =? rt).
+  Proof. unfold o1, bit. now rewrite N.lor_spec, N.ldiff_spec, !shiftl1_testbit. Qed.
+
+  Lemma o'_bit u : N.testbit o' u = (u <? 64) && negb (at_ b' u =? 0).
+  Proof. apply occ_of_testbit. Qed.
+
+  Lemma o_bit u : N.testbit o u = (u <? 64) && negb (at_ b u =? 0).
+  Proof. apply occ_of_testbit. Qed.
+
+  Lemma nz_king : (mk_piece us KING =? 0) = false.
+  Proof. apply N.eqb_neq. unfold mk_piece, KING. lia. Qed.
+  Lemma nz_rook : (mk_piece us ROOK =? 0) = false.
+  Proof. apply N.eqb_neq. unfold mk_piece, ROOK. lia. Qed.
+
+  Lemma rt_occ1 : N.testbit o1 rt = true.
+  Proof. rewrite o1_bit, N.eqb_refl. apply orb_true_r. Qed.
+  Lemma rt_occ' : N.testbit o' rt = true.
+  Proof.
+    rewrite o'_bit, Hb', N.eqb_refl, nz_rook. destruct Hlt as (_ & _ & _ & H).
+    replace (rt <? 64) with true by (symmetry; now apply N.ltb_lt). reflexivity.
+  Qed.
+
+  (* the impl's occupancy and the real one differ only on kt and rf *)
+  Lemma free_agree u : u <> kt -> u <> rf -> free o1 u = free o' u.
+  Proof.
+    intros H1 H2. unfold free. f_equal. rewrite o1_bit, o'_bit, o_bit, Hb'.
+    destruct Hlt as (L1 & L2 & L3 & L4).
+    destruct (N.eqb_spec u rt) as [->|E1].
+    - rewrite nz_rook. replace (rt <? 64) with true by (symmetry; now apply N.ltb_lt). now rewrite orb_true_r.
+    - rewrite orb_false_r. apply N.eqb_neq in H2. rewrite H2. apply N.eqb_neq in H1. rewrite H1.
+      destruct (N.eqb_spec u kf) as [->|E2].
+      + change (0 =? 0) with true. cbn [negb]. now rewrite !andb_false_r.
+      + cbn [negb]. now rewrite andb_true_r.
+  Qed.
+
+  Lemma ray_agree d s t :
+    (ray_in 0 d s t = true ->
+     mem rf (btw d s t) = false /\ (mem kt (btw d s t) = true -> mem rt (btw d s t) = true)) ->
+    ray_in o1 d s t = ray_in o' d s t.
+  Proof.
+    intros H. rewrite (ray_in_char o1), (ray_in_char o').
+    destruct (ray_in 0 d s t); [|reflexivity]. destruct (H eq_refl) as [H1 H2]. f_equal.
+    destruct (mem kt (btw d s t)) eqn:E.
+    - specialize (H2 eq_refl). apply mem_In in H2.
+      rewrite (forallb_free_false o1 _ rt H2 rt_occ1). now rewrite (forallb_free_false o' _ rt H2 rt_occ').
+    - apply forallb_ext_in. intros u Hu. apply free_agree.
+      + intros ->. apply mem_In in Hu. congruence.
+      + intros ->. apply mem_In in Hu. congruence.
+  Qed.
+
+  (* C3: looking from K towards any square *)
+  Lemma slide_agree_K dirs a : a < 64 -> slide_in o1 dirs K a = slide_in o' dirs K a.
+  Proof.
+    intros Ha. unfold slide_in. apply existsb_ext_in. intros d _.
+    destruct (geom_at d) as (_ & _ & H). apply ray_agree. intros E. now apply H.
+  Qed.
+
+  (* C1: looking from the rook's destination towards K *)
+  Lemma slide_agree_rt dirs : slide_in o1 dirs rt K = slide_in o' dirs rt K.
+  Proof.
+    unfold slide_in. apply existsb_ext_in. intros d _.
+    destruct (geom_at d) as (H & _). apply ray_agree. intros E. destruct (H E) as [H1 H2].
+    split; [exact H1|]. intros E2. congruence.
+  Qed.
+
+  (* C2: a ray from K that reaches the rook's corner did so before the move *)
+  Lemma corner_before d : ray_in o1 d K rf = true -> ray_in o d K rf = true.
+  Proof.
+    rewrite (ray_in_char o1), (ray_in_char o). intros H. apply andb_true_iff in H as [H1 H2].
+    rewrite H1. cbn [andb]. destruct (geom_at d) as (_ & H3 & _). specialize (H3 H1).
+    destruct (mem kf (btw d K rf)) eqn:E.
+    - specialize (H3 eq_refl). apply mem_In in H3. rewrite (forallb_free_false o1 _ rt H3 rt_occ1) in H2. discriminate.
+    - rewrite forallb_forall in H2. apply forallb_forall. intros u Hu. specialize (H2 u Hu).
+      unfold free in *. rewrite o1_bit in H2. apply negb_true_iff in H2. apply orb_false_iff in H2 as [H2 _].
+      assert (Hukf : (u =? kf) = false).
+      { apply N.eqb_neq. intros ->. apply mem_In in Hu. congruence. }
+      rewrite Hukf in H2. cbn [negb] in H2. rewrite andb_true_r in H2. now rewrite H2.
+  Qed.
+
+  Theorem castle_core : direct_b ROOK rt o1 K us || revealed b us K o1 = attacked b' K us.
+  Proof.
+    destruct Hlt as (L1 & L2 & L3 & L4). destruct Hdist as (D1 & D2 & D3 & D4 & D5 & D6).
+    assert (Hrt' : at_ b' rt = mk_piece us ROOK) by (rewrite Hb', N.eqb_refl; reflexivity).
+    assert (Hsame : forall a, a <> kf -> a <> kt -> a <> rf -> a <> rt -> at_ b' a = at_ b a).
+    { intros a N1 N2 N3 N4. rewrite Hb'. apply N.eqb_neq in N1, N2, N3, N4. now rewrite N1, N2, N3, N4. }
+    apply bool_eq_iff. rewrite orb_true_iff, revealed_iff, attacked_ex by assumption. split.
+    - intros [H|[a [X [HX [Ha [Hpa Hsl]]]]]].
+      + (* direct: the rook on its new square *)
+        exists rt. split; [exact L4|]. rewrite (att_from_piece b' K us rt ROOK Hrt') by (unfold ROOK; lia).
+        rewrite type_clause_rook by assumption. fold o'.
+        unfold direct_b in H. change (ROOK =? PAWN) with false in H. change (ROOK =? KING) with false in H.
+        change (ROOK =? KNIGHT) with false in H. cbv iota in H. rewrite slide_testbit in H.
+        change (dirs_of ROOK) with rook_dirs in H. rewrite slide_agree_rt in H.
+        rewrite (slide_in_sym _ rook_dirs K rt rook_dirs_closed HK L4). exact H.
+      + pose proof (slider_range X HX) as HXr.
+        destruct (N.eq_dec a kf) as [->|N1].
+        { exfalso. rewrite Hkf in Hpa. unfold mk_piece, KING in Hpa. unfold slider, BISHOP, ROOK, QUEEN in HX. lia. }
+        destruct (N.eq_dec a kt) as [->|N2].
+        { exfalso. rewrite Hkt in Hpa. unfold mk_piece in Hpa. lia. }
+        destruct (N.eq_dec a rt) as [->|N4].
+        { exfalso. rewrite Hrt in Hpa. unfold mk_piece in Hpa. lia. }
+        destruct (N.eq_dec a rf) as [->|N3].
+        { (* the rook's old square: it would have attacked K before *)
+          exfalso. assert (X = ROOK).
+          { rewrite Hrf in Hpa. unfold mk_piece in Hpa. lia. }
+          subst X. change (dirs_of ROOK) with rook_dirs in Hsl. unfold slide_in in Hsl.
+          apply existsb_exists in Hsl as [d [Hd Hr]]. apply corner_before in Hr.
+          pose proof (Hno rf L3) as Hn. rewrite (att_from_piece b K us rf ROOK Hrf) in Hn by (unfold ROOK; lia).
+          rewrite type_clause_rook in Hn by assumption. fold o in Hn. unfold slide_in in Hn.
+          assert (existsb (fun d => ray_in o d K rf) rook_dirs = true) by (apply existsb_exists; now exists d).
+          congruence. }
+        exists a. split; [exact Ha|].
+        assert (Hpa' : at_ b' a = mk_piece us X) by (rewrite Hsame; assumption).
+        rewrite (att_from_piece b' K us a X Hpa') by exact HXr.
+        rewrite slider_clause by assumption. fold o'. now rewrite <- slide_agree_K.
+    - intros [a [Ha Hatt]].
+      destruct (att_from_inv _ _ _ _ Hatt) as [ty' [Hty' [Hpa Hcl]]].
+      destruct (N.eq_dec a rt) as [->|N4].
+      { (* the rook on its new square: direct check *)
+        left. assert (ty' = ROOK).
+        { rewrite Hrt' in Hpa. unfold mk_piece in Hpa. lia. }
+        subst ty'. rewrite type_clause_rook in Hcl by assumption. fold o' in Hcl.
+        unfold direct_b. change (ROOK =? PAWN) with false. change (ROOK =? KING) with false.
+        change (ROOK =? KNIGHT) with false. cbv iota. rewrite slide_testbit.
+        change (dirs_of ROOK) with rook_dirs. rewrite slide_agree_rt.
+        now rewrite (slide_in_sym _ rook_dirs rt K rook_dirs_closed L4 HK). }
+      destruct (N.eq_dec a rf) as [->|N3].
+      { exfalso. rewrite Hb' in Hpa. apply N.eqb_neq in D6. rewrite D6, N.eqb_refl in Hpa.
+        unfold mk_piece in Hpa. lia. }
+      destruct (N.eq_dec a kt) as [->|N2].
+      { (* the king on its new square: excluded by legality *)
+        exfalso. assert (Hkt' : at_ b' kt = mk_piece us KING).
+        { rewrite Hb'. apply N.eqb_neq in D5, D4. now rewrite D5, D4, N.eqb_refl. }
+        assert (ty' = KING).
+        { rewrite Hkt' in Hpa. unfold mk_piece in Hpa. lia. }
+        subst ty'. change (type_clause b' K us kt KING) with (existsb (N.eqb K) (king_targets kt)) in Hcl.
+        congruence. }
+      destruct (N.eq_dec a kf) as [->|N1].
+      { exfalso. rewrite Hb' in Hpa. apply N.eqb_neq in D1, D2, D3. rewrite D3, D2, D1, N.eqb_refl in Hpa.
+        unfold mk_piece in Hpa. lia. }
+      right. rewrite (Hsame a N1 N2 N3 N4) in Hpa.
+      destruct (type_cases ty' Hty') as [Hns|Hs].
+      + exfalso. pose proof (Hno a Ha) as Hn. rewrite (att_from_piece b K us a ty' Hpa) in Hn by lia.
+        rewrite (nonslider_clause b b' K us a ty' Hns) in Hn. congruence.
+      + exists a, ty'. repeat split; try assumption.
+        rewrite slider_clause in Hcl by assumption. fold o' in Hcl. now rewrite slide_agree_K.
+  Qed.
+End Castle.
